@@ -8,7 +8,9 @@ inside Coq AND vs the last-writer-wins oracle written in plain Python below)
   consume   domain.use for USE=tokens -> domain.enabled_use -> render_pkg(pkg, pre_defaults=orig):
             the stored condensed set applied exactly the way its consumer applies it
   license   misc.incremental_expansion_license(pkg, licenses, groups, tokens); the group mapping
-            is the closure computed by the real Licenses._expand_groups from nested definitions
+            comes from a real Licenses object over generated profiles/license_groups files (nesting
+            depth up to 4, written top-down / bottom-up / shuffled, master repos); the model flattens
+            the same definitions itself (close_groups); stream 'groups' compares the maps directly
   pull      collapsed_restrict_to_data(...).pull_data vs the expansion of iter_pull_data
   nipull    non_incremental_collapsed_restrict_to_data(...).pull_data
   licfilter domain._pkg_filters() on a stub domain whose package.license is read by the real loader,
@@ -49,8 +51,41 @@ def c_strs(xs):
     return clist([cstr(x) for x in xs], "str")
 
 
+def c_raw_groups(raw):
+    return clist([cpair(cstr(k), c_strs(v)) for k, v in raw], "str * list str")
+
+
 def c_groups(g):
+    if isinstance(g, Groups):        # the model flattens the definitions itself
+        return "(close_groups %s)" % c_raw_groups(g.raw)
     return clist([cpair(cstr(k), c_strs(sorted(v))) for k, v in sorted(g.items())], "str * list str")
+
+
+class Groups(dict):
+    """license groups of one generated repository.  The dict content is the REFERENCE meaning of
+    the definitions (reachability, computed here); .raw is the license_groups file in definition
+    order (after merging the master's already flattened groups, as Licenses.groups does); .impl is
+    what the real Licenses object built from the files answers (None/Err when it raised)."""
+    raw = ()
+    impl = None
+    lic_obj = None
+    files = ()
+
+
+def ref_closure(raw):
+    d = dict(raw)
+
+    def go(g, seen):
+        out = set()
+        for m in d.get(g, ()):
+            if m.startswith("@"):
+                h = m[1:]
+                if h and h in d and h not in seen:
+                    out |= go(h, seen | {h})
+            else:
+                out.add(m)
+        return out
+    return {g: frozenset(go(g, {g})) for g, _ in raw}
 
 
 BUCKETS = {"always": "BAlways true", "never": "BAlways false", "repo": "BRepo", "cat": "BCat",
@@ -279,26 +314,80 @@ def gen_license_stream(rng, lics_all, maxlen=10):
     return out
 
 
-def gen_groups(rng, lics_all, expand_groups):
-    """nested group definitions -> closure through the real Licenses._expand_groups"""
-    raw = {"G": set(rng.sample(lics_all, rng.choice([0, 1, 2]))),
-           "H": set(rng.sample(lics_all, rng.choice([1, 2, 3])))}
-    if rng.random() < 0.5:
-        raw["H"].add("@G")
-    if rng.random() < 0.7:
-        raw["N"] = set(rng.sample(lics_all, rng.choice([0, 1]))) | {"@H"}
-        if rng.random() < 0.4:
-            raw["N"].add("@M")          # reference to a missing group
-    d = {k: set(v) for k, v in raw.items()}
-    expand_groups(d)
-    return {k: frozenset(v) for k, v in d.items()}
+GROUP_POOL = ["G", "H", "N", "K", "TOP"]
+
+
+def gen_group_defs(rng, lics_all):
+    """nested definitions: a reference chain of depth 1..4 (TOP -> K -> N -> H -> G style) plus side
+    references, a missing group, sometimes a self reference or a 2-cycle; written in a random
+    definition ORDER (top-down, bottom-up or shuffled)"""
+    depth = rng.choice([1, 2, 2, 3, 3, 4])
+    names = GROUP_POOL[:depth + 1]                      # names[0] innermost
+    defs = {}
+    for i, n in enumerate(names):
+        mem = rng.sample(lics_all, rng.choice([0, 1, 1, 2]))
+        if i > 0 and (i == len(names) - 1 or rng.random() < 0.85):
+            mem.append("@" + names[i - 1])
+        if i > 1 and rng.random() < 0.25:
+            mem.append("@" + names[rng.randrange(i - 1)])     # side reference further down
+        if rng.random() < 0.15:
+            mem.append("@M")                                  # missing group
+        if rng.random() < 0.06:
+            mem.append("@" + n)                               # self reference
+        if not mem:
+            mem.append(rng.choice(lics_all))                  # an empty line breaks read_dict
+        rng.shuffle(mem)
+        defs[n] = mem
+    if len(names) >= 2 and rng.random() < 0.06:
+        defs[names[0]].append("@" + names[1])                # 2-cycle
+    order = rng.choice(["top-down", "bottom-up", "shuffled"])
+    keys = list(names)
+    if order == "top-down":
+        keys.reverse()
+    elif order == "shuffled":
+        rng.shuffle(keys)
+    return [(k, defs[k]) for k in keys]
+
+
+def gen_groups(rng, lics_all, make_licenses):
+    """definitions -> files -> the real Licenses object (sometimes with a master repository whose
+    groups arrive already flattened)"""
+    raw = gen_group_defs(rng, lics_all)
+    master_raw = []
+    if rng.random() < 0.25:
+        master_raw = [("MG", rng.sample(lics_all, rng.choice([1, 2])) + (["@MI"] if rng.random() < 0.5 else [])),
+                      ("MI", rng.sample(lics_all, 1))]
+        if rng.random() < 0.5:
+            master_raw.reverse()
+        k = rng.randrange(len(raw))
+        raw[k] = (raw[k][0], raw[k][1] + ["@MG"])
+    return build_groups(raw, master_raw, make_licenses)
+
+
+def build_groups(raw, master_raw, make_licenses):
+    g = Groups()
+    merged = list(raw)
+    if master_raw:
+        mclosed = ref_closure(master_raw)
+        names = [k for k, _ in raw]
+        for k, _ in master_raw:                              # d[k] |= v  /  d[k] = v
+            if k in names:
+                i = names.index(k)
+                merged[i] = (k, merged[i][1] + sorted(mclosed[k]))
+            else:
+                merged.append((k, sorted(mclosed[k])))
+    g.raw = merged
+    g.files = (raw, master_raw)
+    g.update(ref_closure(merged))
+    g.lic_obj, g.impl = make_licenses(raw, master_raw)
+    return g
 
 
 PKG_NAMES = ["p0", "p1", "p2", "p3"]
 
 
-def gen_licfilter(rng, lics_all, expand_groups, malformed=False):
-    groups = gen_groups(rng, lics_all, expand_groups)
+def gen_licfilter(rng, lics_all, make_licenses, malformed=False):
+    groups = gen_groups(rng, lics_all, make_licenses)
     master = gen_license_stream(rng, lics_all, 4)[:4]
     if rng.random() < 0.5 and "-*" not in master:
         master = ["-*"] + master            # the usual ACCEPT_LICENSE="-* @FREE" shape
@@ -357,7 +446,7 @@ def main(chk: Check):
     chk.rule("exhaustive: every stream of length <= L over {a,-a,b,-b,-*,*,-} (licenses: "
              "{a,-a,b,@G,-@G,*,-*,@}); L=3 quick, 5 thorough (4 for licenses and expand/consume x origs); "
              "random: streams up to length 12 over 5 flags (two sharing a prefix) with negations, -*, *, "
-             "--x, -ab_*, @G; licenses with nested/missing groups closed by the real _expand_groups; "
+             "--x, -ab_*, @G; licenses with groups nested up to depth 4, defined top-down/bottom-up/shuffled, missing/self/cyclic refs, master repos, read by the real Licenses object; "
              "malformed: one of '', '-', '-@', '@' spliced into a valid stream. non-trivial = the stream "
              "has a negation after a positive of the same flag or a -* not in first position")
     ok = chk.build(["C12/Prop_C12.vo"])
@@ -420,10 +509,11 @@ def main(chk: Check):
 
     def impl_license(lics, groups, ts):
         def f():
-            toks, g = list(ts), dict(groups)
+            src = groups.lic_obj.groups if isinstance(groups, Groups) else groups
+            toks, g = list(ts), dict(src)
             a = sorted(misc.incremental_expansion_license("cat/pkg-1", frozenset(lics), g, toks, msg_prefix="x "))
             b = sorted(misc.incremental_expansion_license("cat/pkg-1", frozenset(lics), g, toks, msg_prefix="x "))
-            if a != b or toks != list(ts) or g != dict(groups):
+            if a != b or toks != list(ts) or g != dict(src):
                 return Err("state-carried:license")
             return a
         return call(f)
@@ -455,6 +545,30 @@ def main(chk: Check):
 
     lic_tmp = tempfile.mkdtemp(prefix="verif_C12_lic_")
 
+    class _RepoLoc:
+        def __init__(self, location):
+            self.location = location
+
+    def _lic_repo(defs):
+        loc = tempfile.mkdtemp(dir=lic_tmp)
+        os.makedirs(os.path.join(loc, "profiles"))
+        with open(os.path.join(loc, "profiles", "license_groups"), "w") as fh:
+            fh.write("# generated\n")
+            for k, mem in defs:
+                fh.write(k + " " + " ".join(mem) + "\n")
+        return _RepoLoc(loc)
+
+    all_groups = []
+
+    def make_licenses(raw, master_raw):
+        """the real Licenses object over real files; its .groups is what the filter consumes"""
+        def f():
+            masters = [Licenses(_lic_repo(master_raw))] if master_raw else []
+            obj = Licenses(_lic_repo(raw), *masters)
+            return obj, {k: frozenset(v) for k, v in obj.groups.items()}
+        r = call(f)
+        return (None, r) if isinstance(r, Err) else r
+
     def impl_licfilter(master, entries, groups, queries):
         def f():
             d = _LicDomain()
@@ -468,7 +582,8 @@ def main(chk: Check):
             if [list(x[1]) for x in d.pkg_licenses] != [list(e[2]) for e in entries]:
                 return Err("package.license-not-read-back")
             filters = d._pkg_filters()
-            repo = FakeRepo(repo_id="r", licenses=_LicMgr(groups))
+            repo = FakeRepo(repo_id="r", licenses=groups.lic_obj if isinstance(groups, Groups)
+                            else _LicMgr(groups))
             if len(filters) == 1:            # no license filter installed: everything passes
                 return [True for _ in queries]
             out = []
@@ -535,6 +650,7 @@ def main(chk: Check):
     # ---------------- case lists: (python input, coq term, impl result)
     expand_in, optimize_in, consume_in, license_in, pull_in, nipull_in = [], [], [], [], [], []
     licfilter_in = []
+    extra_groups = []
 
     # (1) corpus
     cdir = VERIF / "corpus" / "C12"
@@ -549,6 +665,15 @@ def main(chk: Check):
                     consume_in.append((c["ts"], c["orig"]))
                 elif c["stream"] == "license":
                     license_in.append((c["lics"], {k: frozenset(v) for k, v in c["groups"].items()}, c["ts"]))
+                elif c["stream"] == "groups":
+                    g = build_groups([(k, list(v)) for k, v in c["raw"]],
+                                     [(k, list(v)) for k, v in c.get("master", [])], make_licenses)
+                    for ts in c.get("license_streams", []):
+                        license_in.append((c["lics"], g, ts))
+                    for lf in c.get("licfilters", []):
+                        licfilter_in.append((lf["master"], [(e[0], e[1], e[2]) for e in lf["entries"]], g,
+                                             [(q[0], q[1], q[2]) for q in lf["queries"]]))
+                    extra_groups.append(g)
                 elif c["stream"] == "licfilter":
                     licfilter_in.append((c["master"], [(e[0], e[1], e[2]) for e in c["entries"]],
                                          {k: frozenset(v) for k, v in c["groups"].items()},
@@ -586,7 +711,7 @@ def main(chk: Check):
         consume_in.append((ts, [o for o in orig if rng.random() < 0.9 or not o.startswith("-")]))
     lics_all = ["GPL-2", "MIT", "BSD", "l4", "l5"]
     for _ in range(chk.n(300, 8000)):
-        groups = gen_groups(rng, lics_all, lambda d: Licenses._expand_groups(None, d))
+        groups = gen_groups(rng, lics_all, make_licenses)
         lics = rng.sample(lics_all, rng.choice([1, 2, 3]))
         license_in.append((lics, groups, gen_license_stream(rng, lics_all)))
 
@@ -598,14 +723,14 @@ def main(chk: Check):
         expand_in.append((rng.random() < 0.7, rng.sample(FLAGS, rng.choice([0, 1, 2])), ts))
         optimize_in.append(ts)
         consume_in.append((ts, rng.sample(FLAGS, rng.choice([0, 1, 2]))))
-        groups = gen_groups(rng, lics_all, lambda d: Licenses._expand_groups(None, d))
+        groups = gen_groups(rng, lics_all, make_licenses)
         lt = splice(rng, gen_license_stream(rng, lics_all, 8), rng.choice(["-", "-@", "@", ""]))
         if rng.random() < 0.3:
             lt = splice(rng, lt, rng.choice(["-", "-@", "@"]))
         license_in.append((rng.sample(lics_all, 2), groups, lt))
 
     # (4b) sequences of queries against one license filter
-    eg = lambda d: Licenses._expand_groups(None, d)  # noqa: E731
+    eg = make_licenses
     for _ in range(chk.n(160, 4000)):
         licfilter_in.append(gen_licfilter(rng, lics_all, eg))
     for _ in range(chk.n(25, 500)):
@@ -686,7 +811,9 @@ def main(chk: Check):
         want = ref_license(ts, lics, groups)
         if res != want:
             fail(None, "incremental_expansion_license differs from left-to-right / last-writer-wins",
-                 {"licenses": lics, "groups": {k: sorted(v) for k, v in groups.items()}, "tokens": ts},
+                 {"licenses": lics, "groups": {k: sorted(v) for k, v in groups.items()}, "tokens": ts,
+                  "license_groups": [k + " " + " ".join(m) for k, m in getattr(groups, "files", ((), ()))[0]],
+                  "master license_groups": [k + " " + " ".join(m) for k, m in getattr(groups, "files", ((), ()))[1]]},
                  res, want)
         if nontrivial(ts):
             chk.nontrivial(("l", tuple(lics), tuple(sorted((k, tuple(sorted(v))) for k, v in groups.items())),
@@ -709,6 +836,7 @@ def main(chk: Check):
                   "package.license": [(f"cat/{n}" if v is None else f"=cat/{n}-{v}") + " " + " ".join(t)
                                       for n, v, t in entries],
                   "groups": {g: sorted(v) for g, v in groups.items()},
+                  "license_groups": [g + " " + " ".join(m) for g, m in getattr(groups, "files", ((), ()))[0]],
                   "queries": [{"pkg": f"cat/{n}-{v}", "LICENSE": license_string(a)} for n, v, a in queries[:k]]},
                  res if not isinstance(res, list) else res[:k], want[:k])
         hits = [sum(1 for e in entries if entry_matches(e, q)) for q in queries]
@@ -750,6 +878,36 @@ def main(chk: Check):
                  res, want)
     chk.count("licfilter_dup", n_dup)
     shutil.rmtree(lic_tmp, ignore_errors=True)
+
+    # the group maps themselves: real Licenses(...).groups vs the order-independent meaning
+    groups_in, seen_g = [], set()
+    for g in extra_groups + [x[1] for x in license_in] + [x[2] for x in licfilter_in]:
+        if isinstance(g, Groups) and id(g) not in seen_g:
+            seen_g.add(id(g))
+            groups_in.append(g)
+    groups_cases = []
+    for g in groups_in:
+        if isinstance(g.impl, Err):
+            res = g.impl
+        else:
+            res = [[k, sorted(g.impl[k])] if k in g.impl else Err("group-missing") for k, _ in g.raw]
+            if set(g.impl) != {k for k, _ in g.raw}:
+                res = Err("group-names-differ")
+        groups_cases.append(("(%s)" % c_raw_groups(g.raw), res))
+        want = [[k, sorted(g[k])] for k, _ in g.raw]
+        if res != want:
+            bad = [k for k, _ in g.raw if isinstance(res, Err) or [k, sorted(g[k])] not in res]
+            fail(None, "Licenses.groups does not flatten the nested @group definitions to the licenses "
+                       "reachable through the references (so @group / -@group tokens expand wrongly)",
+                 {"license_groups": [k + " " + " ".join(m) for k, m in g.files[0]],
+                  "master license_groups": [k + " " + " ".join(m) for k, m in g.files[1]],
+                  "wrong_groups": bad},
+                 res if isinstance(res, Err) else {k: v for k, v in res if k in bad},
+                 {k: sorted(g[k]) for k in bad})
+        depth_refs = sum(1 for _, m in g.raw for x in m if x.startswith("@"))
+        if depth_refs >= 2:
+            chk.nontrivial(("g", repr(g.files)))
+    chk.count("groups", len(groups_cases))
 
     pull_cases, nipull_cases = [], []
     for fd, srcs, pre in pull_in:
@@ -795,12 +953,12 @@ def main(chk: Check):
 
     # ---------------- evaluate model (A) and spec (B) inside Coq: all streams in one case type
     ctor = {"expand": "CExpand", "optimize": "COptimize", "consume": "CConsume",
-            "license": "CLicense", "pull": "CPull", "nipull": "CNiPull", "licfilter": "CLicFilter"}
+            "license": "CLicense", "pull": "CPull", "nipull": "CNiPull", "licfilter": "CLicFilter", "groups": "CGroups"}
     raw_in = {"expand": expand_in, "optimize": optimize_in, "consume": consume_in,
-              "license": license_in, "pull": pull_in, "nipull": nipull_in, "licfilter": licfilter_in}
+              "license": license_in, "pull": pull_in, "nipull": nipull_in, "licfilter": licfilter_in, "groups": [g.files for g in groups_in]}
     per_stream = {"expand": expand_cases, "optimize": optimize_cases, "consume": consume_cases,
                   "license": license_cases, "pull": pull_cases, "nipull": nipull_cases,
-                  "licfilter": licfilter_cases}
+                  "licfilter": licfilter_cases, "groups": groups_cases}
     allc = []           # (stream, index in stream)
     for name, cs in per_stream.items():
         allc += [(name, i) for i in range(len(cs))]
